@@ -11,7 +11,10 @@ mod c02;
 mod c02_conn;
 mod c03;
 mod scen;
+mod c11;
+mod c15;
 mod c16;
+mod c18;
 
 use explore::report::Tier;
 
@@ -47,7 +50,10 @@ fn main() {
     let code = match argv[1].as_str() {
         "C02" => c02::run(&args),
         "C03" => c03::run(&args),
+        "C11" => c11::run(&args),
+        "C15" => c15::run(&args),
         "C16" => c16::run(&args),
+        "C18" => c18::run(&args),
         other => {
             eprintln!("unknown property {other}");
             2
@@ -79,7 +85,10 @@ fn replay(path: &str) -> i32 {
     match prop {
         "C02" => c02::replay(r),
         "C03" => c03::replay(r),
+        "C11" => c11::replay(r),
+        "C15" => c15::replay(r),
         "C16" => c16::replay(r),
+        "C18" => c18::replay(r),
         other => {
             eprintln!("no replay for property {other}");
             2
